@@ -6,6 +6,8 @@
 \*     [op |-> "from", m |-> mod, a |-> name, catch |-> c] from mod import name
 \*     [op |-> "def",  m |-> "",  a |-> name, catch |-> ""] a name becomes bound in the running module
 \*     [op |-> "use",  m |-> mod, a |-> name, catch |-> c] import-time evaluation of mod.name
+\*     [op |-> "probe", m |-> mod, a |-> name, catch |-> c] import-time hasattr/getattr-with-default on mod.name: never raises,
+\*                     but its answer differs between a partially and a fully initialised mod ("OrderDependent")
 \*   catch: "" | "ImportError" | "Exception": the innermost enclosing try handler of the statement
 \* sys.modules status: "absent" -> "running" (on the stack, partially initialised) -> "done".
 \* `import m` of a running module returns the partial module at once; `from m import a` needs a bound
@@ -59,6 +61,10 @@ Exec ==
               IF st.a \in defined[st.m] \/ (Submodule(st.m, st.a) # "" /\ status[Submodule(st.m, st.a)] = "done")
               THEN Advance /\ UNCHANGED <<script, status, defined, err, events>>
               ELSE err' = "AttributeError" /\ UNCHANGED <<script, status, stack, defined, events>>
+         [] st.op = "probe" ->
+              IF st.a \in defined[st.m] \/ (Submodule(st.m, st.a) # "" /\ status[Submodule(st.m, st.a)] = "done")
+              THEN Advance /\ UNCHANGED <<script, status, defined, err, events>>
+              ELSE err' = "OrderDependent" /\ UNCHANGED <<script, status, stack, defined, events>>
          [] st.op = "def" ->
               /\ defined' = [defined EXCEPT ![Top.m] = @ \cup {st.a}]
               /\ Advance /\ UNCHANGED <<script, status, err, events>>
